@@ -6,6 +6,7 @@ import (
 	"context"
 	"encoding/json"
 	"fmt"
+	"os"
 	"reflect"
 	"runtime"
 	"strconv"
@@ -197,6 +198,8 @@ type vsXfer struct {
 	N int    `json:"n"`
 }
 
+var vsTrace = os.Getenv("GOSX_POINT_TRACE") != ""
+
 var vs struct {
 	mu     sync.Mutex
 	cond   *sync.Cond
@@ -274,7 +277,7 @@ func vsWaitOwnerLocked(g int) {
 
 func vsConsumeLocked(g int, inBefore bool) {
 	p := vs.points[g]
-	for vs.on && vs.pos < len(vs.log) && vs.log[vs.pos].G == g && vs.log[vs.pos].P == p {
+	for vs.on && vs.pos < len(vs.log) && vs.log[vs.pos].G == g && vs.log[vs.pos].P == p && vs.log[vs.pos].K != "exit" {
 		x := vs.log[vs.pos]
 		vs.pos++
 		vs.owner = x.N
@@ -299,6 +302,10 @@ func vsBefore() {
 	}
 	vsWaitOwnerLocked(g)
 	vs.points[g]++
+	if vsTrace {
+		_, file, line, _ := runtime.Caller(2)
+		fmt.Printf("VS g%d p%d %s:%d\n", g, vs.points[g], file, line)
+	}
 	vsConsumeLocked(g, true)
 }
 
@@ -313,6 +320,33 @@ func vsAfter() {
 		return
 	}
 	vsWaitOwnerLocked(g)
+}
+
+// vsAcquire performs a lock acquisition under the recorded schedule: the
+// goroutine passes its point (possibly handing the token away where the
+// symbolic run blocked), waits until the schedule gives it the token back and
+// then takes the lock with TryLock; nothing blocks inside the real primitive.
+func vsAcquire(try func() bool, real func()) {
+	if !vs.on {
+		real()
+		return
+	}
+	vsBefore()
+	for i := 0; i < 2000; i++ {
+		vsAfter()
+		if !vs.on || try() {
+			if !vs.on {
+				real()
+			}
+			return
+		}
+		// the lock is still held natively although the schedule says we run:
+		// give the holder (who does not need the token to finish unlocking) a moment
+		time.Sleep(50 * time.Microsecond)
+	}
+	fmt.Println("VERIF-SCHED-DIVERGED lock not available")
+	vsRelease()
+	real()
 }
 
 // vsHandoff performs recorded block transfers at the current point without
